@@ -13,6 +13,13 @@ def _bits(scn):
     return zlib.crc32(json.dumps(scn, sort_keys=True).encode())
 
 
+def variants_quick(scn):
+    """quick tier: one window-mode and one buffer-mode run per scenario, rotating over the scenarios"""
+    v = variants(scn)
+    b = _bits(scn)
+    return [v[0] if (b >> 17) & 1 else v[2], v[1] if (b >> 18) & 1 else v[3]]
+
+
 def variants(scn):
     """2 window-mode + 2 buffer-mode runs per scenario; the remaining dimensions (one subscription or two
     independent subscriptions to the same pipeline object, clock kind, tick scale,
@@ -56,7 +63,7 @@ def runs_for(tier):
                                                AuxTerms={"U", "E"}, Faults=True, Terms={"E", "U"}, Durs={1})),
                 # dispose dimension (C03): the subscriber disposes the result and every window subscription at any instant
                 ("dispose all six rules", c(FAMILIES, 2, 2, H=3, CountLen=3, MaxAux=1, Counts={1, 2}, Spans={1, 2},
-                                            Shifts={1, 2}, Durs={1}, Terms={"C", "U"}, Disposes=True))]
+                                            Shifts={1, 2}, Durs={1}, Terms={"U"}, Disposes=True))]
     return [("count", c(["count"], 5, 4, Counts={1, 2, 3, 4}, CountLen=8)),
             ("time", c(["time"], 4, 4, H=6)),
             ("time long", c(["time"], 2, 6, H=8, Spans={1, 2, 4, 5}, Shifts={1, 3, 4})),
@@ -82,42 +89,42 @@ def sampled_runs(tier):
 
 
 def run(tier):
-    ck = core.Check("C18", tier)
-    exported = wc.export_runs(ck, "OpsWindow", wc.WINDOW_INVS, runs_for(tier), par=4,
-                              timeout=240 if tier == "quick" else 3000, light=tier == "quick")
-    n = wc.replay_all(ck, "window", exported, variants, procs=8)
-    ck.exhaustive = True
-    hist = collections.Counter()
-    per = collections.Counter()
-    nt = 0
-    for label, c, groups in exported:
-        for scn, allowed in groups:
-            per[scn["op"]] += 1
-            hist[min(len(allowed), 9)] += 1
-            nt += 1 if nontrivial(scn, allowed) else 0
     import random
-    rng = random.Random(ck.seed + 18)
-    nsampled = 0
-    for label, fam, c, n in sampled_runs(tier):
-        e = wc.export_sampled(ck, "OpsWindow", wc.WINDOW_INVS, label, c, wc.sample_window_scns(rng, fam, c, n))
-        exported.append(e)
-        nsampled += wc.replay_all(ck, "window", [e], variants, procs=8)
-    if nsampled:
-        ck.note("sampled_large_instance_runs", nsampled)
-    hist.clear(), per.clear()
-    nt = 0
-    for label, c, groups in exported:
+    import time
+    ck = core.Check("C18", tier)
+    hist, per = collections.Counter(), collections.Counter()
+    stats = {"nt": 0, "samples": []}
+    vf = variants_quick if tier == "quick" else variants
+
+    def digest(e):
+        label, c, groups = e
+        wc.replay_all(ck, "window", [e], vf, procs=8)
         for scn, allowed in groups:
             per[scn["op"]] += 1
             hist[min(len(allowed), 9)] += 1
-            nt += 1 if nontrivial(scn, allowed) else 0
+            stats["nt"] += 1 if nontrivial(scn, allowed) else 0
+        if groups and len(stats["samples"]) < 6:
+            g = groups[len(groups) // 2]
+            stats["samples"].append({"scn": g[0], "allowed": g[1][:2]})
+
+    for e in wc.export_runs(ck, "OpsWindow", wc.WINDOW_INVS, runs_for(tier), par=4,
+                            timeout=240 if tier == "quick" else 3000, light=tier == "quick"):
+        digest(e)
+    ck.exhaustive = True
+    rng = random.Random(ck.seed + 18)
+    before = ck.impl
+    for label, fam, c, n in sampled_runs(tier):
+        digest(wc.export_sampled(ck, "OpsWindow", wc.WINDOW_INVS, label, c, wc.sample_window_scns(rng, fam, c, n)))
+    if ck.impl > before:
+        ck.note("sampled_large_instance_runs", ck.impl - before)
+    nt = stats["nt"]
     ck.nontrivial = nt
     ck.rule = ("every source timeline (0..MaxLen elements at instants 1..MaxT, non-decreasing, ending in completion / error at "
                "every later instant / nothing) x every parameter (count, skip in Counts incl. skip<count and skip>count; "
                "timespan, timeshift overlapping and gapped; count x timespan; every boundary / openings timeline; closing "
                "durations per window, closing by on_next or by empty completion) enumerated by TLC on OpsWindow.tla with "
-               "every same-instant tie order; each scenario is run as window_* (twice) and buffer_* (twice) on the real "
-               "operators; non-trivial = at least two windows and at least one element delivered")
+               "every same-instant tie order; each scenario is run as window_* and buffer_* (thorough: twice each) on the "
+               "real operators; non-trivial = at least two windows and at least one element delivered")
     ck.note("scenarios", sum(per.values()))
     ck.note("scenarios_per_family", dict(per))
     ck.note("allowed_set_size_histogram(9=9+)", {str(k): v for k, v in sorted(hist.items())})
@@ -128,10 +135,8 @@ def run(tier):
                              "mapper raises: error at that instant OR nothing more (both allowed)",
                              "completion of the boundary / openings observable (not generated)",
                              "source subscription interval, except in dispose scenarios (closed at the dispose instant)"])
-    for label, c, groups in exported[:6]:
-        if groups:
-            g = groups[len(groups) // 2]
-            ck.sample({"scn": g[0], "allowed": g[1][:2]})
+    for x in stats["samples"]:
+        ck.sample(x)
     ck.assumptions = [
         "TestScheduler / HistoricalScheduler run actions in due order, FIFO among equal due times (checked separately: C28)",
         "the sink subscribes to every window synchronously at hand-out (a later subscriber of a Subject-backed window "
